@@ -158,6 +158,29 @@ def gen_matrix(rng, kind, nmax):
         return mspec((n, n), tr, rng), '%s_%s_%s' % (kind[:3], fam, wk)
 
 
+def stacked_connected(spec, force_bipartite=False, allow_directed=False):
+    b = dense(spec)
+    nr, nc = b.shape
+    bip = force_bipartite or nr != nc or not (allow_directed or np.array_equal(b, b.T))
+    return strongly_connected(stacked(b) if bip else b)
+
+
+def gen_history(rng, kinds, nmax, last_spec, allow_directed=False):
+    """Refit family: one or two earlier graphs for the SAME estimator object, of kinds contrasting with the last
+    graph: other shape class (square / rectangular), other size, and - for half of the sequences, enforced - the
+    opposite connectivity, so that anything an earlier fit leaves behind on the object (a resolved regularisation,
+    weights, labels, a solver state) shows in the last fit."""
+    want = not stacked_connected(last_spec, allow_directed=allow_directed) if rng.random() < 0.5 else None
+    hist = []
+    for _ in range(rng.choice([1, 1, 2])):
+        for _try in range(12):
+            spec, _fam = gen_matrix(rng, rng.choice(kinds), rng.choice([6, nmax]))
+            if want is None or stacked_connected(spec, allow_directed=allow_directed) == want:
+                break
+        hist.append(dict(m=spec))
+    return hist
+
+
 # ------------------------------------------------------------------------------------------------
 # Spectral
 # ------------------------------------------------------------------------------------------------
@@ -180,7 +203,7 @@ def spectral_oracle(ctx, case, out):
 
     def bad(what, **kw):
         ctx.violation(site, what, case=case, decomposition=case['decomposition'], regularization=case['regularization'],
-                      normalized=case['normalized'], **kw)
+                      normalized=case['normalized'], refit='history' in case, **kw)
         return 'violation'
     vals = np.asarray(out['eigenvalues'], dtype=float)
     vecs = np.asarray(out['eigenvectors'], dtype=float)
@@ -347,7 +370,7 @@ def gsvd_oracle(ctx, case, out):
                   regularization=case.get('regularization'))
 
     def bad(what, site=site, **kw):
-        f = dict(common)
+        f = dict(common, refit='history' in case)
         f.update(kw)
         ctx.violation(site, what, case=case, **f)
         return 'violation'
@@ -595,7 +618,8 @@ def rp_oracle(ctx, case, out):
     k = case['n_components']
 
     def bad(what, **kw):
-        ctx.violation('RandomProjection.fit', what, case=case, random_walk=case['random_walk'], normalized=case['normalized'], **kw)
+        ctx.violation('RandomProjection.fit', what, case=case, random_walk=case['random_walk'], normalized=case['normalized'],
+                      refit='history' in case, **kw)
         return 'violation'
     if out['bipartite'] != bip or out['regularized'] != (reg > 0):
         return bad('bipartite / regularized flags differ from the documented rule', check='flags')
@@ -686,7 +710,7 @@ def louvain_oracle(ctx, case, out):
     lv = out.get('louvain')
 
     def bad(what, **kw):
-        ctx.violation('LouvainEmbedding.fit', what, case=case, isolated_nodes=case['isolated_nodes'], **kw)
+        ctx.violation('LouvainEmbedding.fit', what, case=case, isolated_nodes=case['isolated_nodes'], refit='history' in case, **kw)
         return 'violation'
     if lv is None:
         return bad('Louvain was not called', check='capture')
@@ -840,6 +864,9 @@ def run(ctx, scratch):
             n = nr + nc if (fb or nr != nc or not np.array_equal(b, b.T)) else nr
             case = dict(m=spec, n_components=rng.randint(1, min(3, n - 2)), decomposition=rng.choice(['rw', 'laplacian']),
                         regularization=rng.choice(REGS), normalized=rng.random() < 0.5, force_bipartite=fb)
+            refit = t % 4 == 1
+            if refit:
+                case['history'] = gen_history(rng, ['undirected', 'undirected', 'bipartite'], 10, spec)
             r = impl.call('c09', 'spectral', case, timeout=60)
             ctx.traces += 1
             if arpack_refused(r):
@@ -851,7 +878,8 @@ def run(ctx, scratch):
                 continue
             st = spectral_oracle(ctx, case, r['ok'])
             note('Spectral', st)
-            ctx.count('Spectral:' + fam.split('_')[0] + ':' + case['decomposition'], ('spectral', case), st != 'excluded_undefined_P')
+            ctx.count('Spectral:' + ('refit:' if refit else '') + fam.split('_')[0] + ':' + case['decomposition'], ('spectral', case),
+                      st != 'excluded_undefined_P')
             if t % 60 == 0:
                 ctx.sample(dict(estimator='Spectral', case=case, eigenvalues=r['ok']['eigenvalues'], status=st))
             if st == 'ok':
@@ -877,6 +905,9 @@ def run(ctx, scratch):
             if est == 'GSVD':
                 case['factor_row'] = rng.choice([0., 0.5, 1.])
                 case['factor_col'] = rng.choice([0., 0.5, 1.])
+            refit = t % 4 == 1
+            if refit:
+                case['history'] = gen_history(rng, ['undirected', 'bipartite', 'directed'], 10, spec, allow_directed=True)
             r = impl.call('c09', 'gsvd', case, timeout=60)
             ctx.traces += 1
             if arpack_refused(r):
@@ -888,7 +919,7 @@ def run(ctx, scratch):
                 continue
             st = gsvd_oracle(ctx, case, r['ok'])
             note(est, st)
-            ctx.count('%s:%s' % (est, fam.split('_')[0]), ('gsvd', case), True)
+            ctx.count('%s:%s%s' % (est, 'refit:' if refit else '', fam.split('_')[0]), ('gsvd', case), True)
             if t % 60 == 0:
                 ctx.sample(dict(estimator=est, case=case, singular_values=r['ok']['singular_values'], status=st))
             if est != 'PCA' and len(corr_svd) < n_corr_svd and t % 2 == 0 and \
@@ -908,6 +939,9 @@ def run(ctx, scratch):
             case = dict(m=spec, n_components=rng.randint(1, min(3, n)), alpha=rng.choice([0.5, 0.25, 1.0, 0.75]),
                         n_iter=rng.choice([0, 1, 2, 3]), random_walk=rng.random() < 0.5, regularization=rng.choice([-1, 0, 0.5, 1]),
                         normalized=rng.random() < 0.5, seed=rng.randint(0, 10 ** 6), force_bipartite=fb)
+            refit = t % 4 == 1
+            if refit:
+                case['history'] = gen_history(rng, ['undirected', 'directed', 'bipartite'], 10, spec, allow_directed=True)
             r = impl.call('c09', 'random_projection', case, timeout=60)
             ctx.traces += 1
             if 'ok' not in r:
@@ -915,7 +949,7 @@ def run(ctx, scratch):
                 continue
             st = rp_oracle(ctx, case, r['ok'])
             note('RandomProjection', st)
-            ctx.count('RandomProjection:' + fam.split('_')[0], ('rp', case), True)
+            ctx.count('RandomProjection:' + ('refit:' if refit else '') + fam.split('_')[0], ('rp', case), True)
             if t % 50 == 0:
                 ctx.sample(dict(estimator='RandomProjection', case=case, status=st))
             if st == 'ok' and n <= 8 and len(corr_rp) < n_corr_rp:
@@ -927,6 +961,9 @@ def run(ctx, scratch):
             case = dict(m=spec, isolated_nodes=rng.choice(['remove', 'merge', 'keep']), resolution=rng.choice([1, 1, 0.5, 2]),
                         modularity=rng.choice(['Dugue', 'Newman', 'Potts']), shuffle_nodes=rng.random() < 0.3,
                         seed=rng.randint(0, 1000), force_bipartite=False)
+            refit = t % 4 == 1
+            if refit:
+                case['history'] = gen_history(rng, ['undirected', 'directed', 'bipartite'], 10, spec, allow_directed=True)
             r = impl.call('c09', 'louvain_embedding', case, timeout=60)
             ctx.traces += 1
             if 'ok' not in r:
@@ -934,7 +971,7 @@ def run(ctx, scratch):
                 continue
             st = louvain_oracle(ctx, case, r['ok'])
             note('LouvainEmbedding', st)
-            ctx.count('LouvainEmbedding:' + fam.split('_')[0], ('lv', case), True)
+            ctx.count('LouvainEmbedding:' + ('refit:' if refit else '') + fam.split('_')[0], ('lv', case), True)
             if t % 50 == 0:
                 ctx.sample(dict(estimator='LouvainEmbedding', case=case, status=st, labels=r['ok'].get('labels')))
             if st in ('ok', 'error_agree') and len(corr_lv) < n_corr_lv:
@@ -960,7 +997,9 @@ def run(ctx, scratch):
     ctx.extra['c09_validator_evaluations'] = nval
     ctx.rule = ('random undirected / directed / rectangular-bipartite graphs (13 families of harness/gen.py, n <= 12, unit, small-integer '
                 'and dyadic weights, connected and disconnected, isolated nodes, self-loops) x n_components in {1,2,3} x decomposition x '
-                'regularisation in {-1,0,0.1,1} x normalized x factor_row/col/singular in {0,0.5,1} x solver options; dense NumPy oracle on '
+                'regularisation in {-1,0,0.1,1} x normalized x factor_row/col/singular in {0,0.5,1} x solver options; one case in four is a REFIT '
+                'sequence (the same estimator object is first fitted on one or two graphs of contrasting kind - connectivity, shape class, '
+                'size - and the oracle judges the LAST fit with the regularisation resolved for the last graph); dense NumPy oracle on '
                 'every case, Coq wrapper models (vm_compute, exact rationals, np.sqrt/np.power answers as oracle tables) on a sample, '
                 'proved residual validators inside Coq on a sample with n <= 8; distinct by hash of (estimator, arguments); '
                 'non-trivial = at least one edge and the documented matrix is defined')
